@@ -301,6 +301,11 @@ func (e *Env) step(st *seqState, c *Caller, op model.Op, cor *Corruption, whoFau
 				e.fail("http-leak", "%s: reply with status %d contains secret bytes %q", desc, hr.Status, m)
 			}
 		}
+		if hr.Status == 200 && (op.Kind == model.OpList || op.Kind == model.OpInfo) {
+			if m := e.containsMarker(hr.Body); m != nil {
+				e.fail("http-leak", "%s: a metadata reply contains secret value bytes %q", desc, m)
+			}
+		}
 		if hr.Status == 304 && len(hr.Body) != 0 {
 			e.fail("http-status", "%s: 304 reply has a body of %d bytes", desc, len(hr.Body))
 		}
